@@ -353,7 +353,7 @@ def make_jobs(tier, seed, only=None):
     cfgs = ["g-san", "g-rel-asan"] if tier == "quick" else ["g-san", "g-rel-asan", "c-san"]
     if only:
         cfgs = [only["config"]]
-    env = {"VERIF_SEED": str(seed), "VERIF_NRAND": "12" if tier == "quick" else "60", "VERIF_TEXT_EXH": "8" if tier == "quick" else "16"}
+    env = {"VERIF_SEED": str(seed), "VERIF_NRAND": "12" if tier == "quick" else "60", "VERIF_TEXT_EXH": "8" if tier == "quick" else "10"}
     stm = [(d, '%s("%s", %d, %d);' % (c, d, i, 200)) for i, (d, c) in enumerate(ks)]
     if not only:
         stm += capacity_stmts(tier, len(ks) + 10)
@@ -362,6 +362,7 @@ def make_jobs(tier, seed, only=None):
         for i, sh in enumerate(core.shard(stm, 1 if only else (32 if tier == "quick" else 96))):
             j = core.Job("c13-%d" % i, core.tu("c13.h", sh), cfg, env=env, extra_flags=["-DCNL_USE_IOSTREAMS=1"], timeout=3600)
             j.keep_raw = True
+            j.spill = True   # logs of a thorough run are tens of GB: kept on disk, judged job by job
             jobs.append(j)
     return jobs, len(ks)
 
@@ -373,6 +374,8 @@ def run_both(prop, tier, seed, only=None):
     for j in jobs:
         res.absorb(j)
         judge(res if prop == "C13" else None, res if prop == "C14" else None, j)
+        if hasattr(j.raw, "discard"):
+            j.raw.discard()
         if j.died and not any(r.get("t") == "asan" for r in j.records):
             res.inconclusive.append("binary %s[%s] died outside a guarded case (rc=%s)" % (j.name, j.config, j.rc))
     res.extra["kernels_generated"] = nk
